@@ -112,12 +112,18 @@ PROPS = {
             "no_isolated_scope) is true, an error counting as false; evalExtend (BIND) extends each solution by var := value "
             "or passes it through unchanged when the expression is an error - no solution is dropped (proved: soundness "
             "per yield and completeness)",
+            "evalUnion returns exactly the solutions of its two operands (set level), BOTH evaluated under the query context "
+            "as it is at the call: verified under consumer interference - between two solutions handed on, the consumer "
+            "(evalGraph resets ctx.graph on every solution it passes on) may change the context's active graph arbitrarily; "
+            "a lazily evaluated second branch fails the soundness obligation with a genuine counter-model (proved: loop "
+            "invariants over the result list; `yield from` / yielding loops are handled by the same contract)",
             "QueryContext.__setitem__: raises AlreadyBound iff the variable is bound to a different term (falsy terms "
             "included), otherwise records the binding; state unchanged when it raises (proved)",
         ],
         "clauses_not_decided": [
             "translation of query text to algebra (translateGroupGraphPattern, filter collection, scoping) and the "
-            "top-down evaluators evalBGP / evalLazyJoin / evalLeftJoin / evalFilter / evalExtend / evalGraph: their "
+            "top-down evaluators evalBGP / evalLazyJoin / evalLeftJoin / evalGraph (evalFilter / evalExtend / evalUnion are "
+            "proved one level up, relative to evalPart of their operands): their "
             "equivalence with bottom-up evaluation is a relational property of recursive functions over the algebra "
             "tree - not brought under contract; covered by the bounded differential run against an independent "
             "bottom-up evaluator only",
@@ -207,17 +213,24 @@ PROPS = {
             "of the alternatives' relations, restricted to the ends that are not None (bound ends respected whatever the "
             "term's truthiness) - proved: soundness per yield and completeness per argument shape, against the abstract "
             "relation rel(p, s, o) with eval_path as the only callee",
+            "NegatedPath.eval, sets of forward members !(p1|..|pn): yields exactly the pairs (s, o) linked by a triple whose "
+            "OWN predicate is none of p1..pn, restricted to the ends that are not None - proved: soundness per yield and "
+            "completeness per argument shape; the for/else loop over the members is verified with an invariant plus an exact "
+            "break condition (a breaking iteration satisfies it, a completed one does not, the else-branch carries 'no member "
+            "breaks' as a path condition), Graph.triples / Graph.__contains__ by their C01 contracts",
         ],
         "clauses_not_decided": [
             "SequencePath.eval (recursive closures over list slices), MulPath.eval (closure with a seen-set, termination on "
-            "cycles, duplicate-freedom, zero-length matches) and NegatedPath.eval: bounded stand-in only (relational "
-            "reference semantics, every operator, nesting depth 2, all bound/unbound combinations, falsy end points)",
+            "cycles, duplicate-freedom, zero-length matches) and NegatedPath.eval on sets WITH inverse members (^q; open "
+            "finding C11-negated-set-inverse-members): bounded stand-in only (relational reference semantics, every "
+            "operator, nesting depth 2, all bound/unbound combinations, falsy end points, parallel edges)",
             "translation of SPARQL path syntax (algebra.translatePath, parser): bounded only",
         ],
         "explanation": "The non-recursive operators are proved against the relational definition; closures and sequences "
                        "are compared with a reference implementation of the relational semantics.",
         "assumptions": A_COMMON,
-        "level_text": "Proof for inverse and alternative paths; the recursive operators are bounded; 'other'.",
+        "level_text": "Proof for inverse and alternative paths and negated sets of forward members; the recursive "
+                      "operators are bounded; 'other'.",
         "level_note": "Trusted: eval_path contract (Graph.triples for IRIs - C01 - and the other operators' eval), PyVC/z3.",
     },
     "C16": {
@@ -415,8 +428,11 @@ PROPS = {
             "with one fresh cell, chain stays well-formed, no orphan (proved)",
         ],
         "clauses_not_decided": [
-            "that __len__/__iter__ (Graph.items) yield EVERY member, in order; index, __delitem__, clear, __iadd__: bounded "
+            "that __len__/__iter__ (Graph.items) yield EVERY member, in order; index, __delitem__, __iadd__: bounded "
             "stand-in only (ordered-yield contracts not written)",
+            "clear(): contract written (empty well-formed list, no orphaned cells, no other triple touched, terminates), 144 "
+            "of 154 obligations discharge; preservation of the position ghost / frame clause and the variant time out in "
+            "z3's sequence theory (60 s): NOT counted as proved, thorough tier only, bounded stand-in decides",
             "negative indices (c[-1]) and item assignment at index == len: known differences from list "
             "(known finding C19-setitem-at-len); reads on cyclic/broken chains: bounded (all chains <= 3 cells)",
         ],
